@@ -119,7 +119,7 @@ func (dsp *DataStreamProcessor) ConfigurePulseLengths(nsamp, npre int) error {
 // ConfigureTrigger sets this stream's trigger state.
 func (dsp *DataStreamProcessor) ConfigureTrigger(state TriggerState) error {
 	dsp.TriggerState = state
-	dsp.LastTrigger = 0 // forget the Last Trigger, so that all channels will auto trigger
+	dsp.LastTrigger = math.MinInt64 / 4 // forget the Last Trigger, so that all channels will auto trigger
 	// at the same starting point when you send new trigger settings
 
 	// we currently have two locations where we have nsamp and npre inside a dsp
